@@ -205,14 +205,21 @@ def run_history(h):
                         if c.get("structs_given"):
                             with open(os.path.join(BOOTDIR, "sark.struct"), "rb") as f:
                                 ckw["structs"] = struct_file.read_struct_file(f.read())
-                        controllers[key] = MachineController(c["host"], **ckw)
+                        # (SCP: one try, short timeout -- nothing ever answers SCP here)
+                        controllers[key] = MachineController(c["host"], n_tries=1, timeout=0.05, **ckw)
                     mc = controllers[key]
                     for name in ("width", "height"):
                         if c.get(name) is not None:
                             kw[name] = c[name]
-                    sent = mc.boot(only_if_needed=False, check_booted=False, **kw)
-                    structs = mc.structs
-                    res = ["ok", None, sent is True]
+                    from rig.machine_control.machine_controller import SpiNNakerBootError
+                    try:
+                        sent = mc.boot(only_if_needed=False, check_booted=bool(c.get("check_booted")), **kw)
+                        structs = mc.structs
+                        res = ["ok", None, sent is True]
+                    except SpiNNakerBootError:
+                        # check_booted: the image was sent, then no SCP reply came
+                        structs = None
+                        res = ["sent", None, "SpiNNakerBootError"]
                 else:
                     structs = B.boot(c["host"], **kw)
                     res = ["ok", None, True]
